@@ -19,6 +19,11 @@ EXC_PARENTS = {
     "ZeroDivisionError": "ArithmeticError", "ArithmeticError": "Exception",
     "Exception": "BaseException", "PulserValueError": "ValueError",
     "AbstractReprError": "Exception", "DeserializeDeviceError": "Exception",
+    "InvalidSequenceError": "PulserValueError", "DimensionError": "InvalidSequenceError", "DimensionChoiceError": "DimensionError",
+    "DimensionTooHighError": "DimensionError", "DimensionPositionsTooHighError": "DimensionError", "TrapsNumberError": "InvalidSequenceError",
+    "TrapsNumberTooLowError": "TrapsNumberError", "TrapsNumberTooHighError": "TrapsNumberError", "QubitsNumberError": "InvalidSequenceError",
+    "AtomsNumberError": "InvalidSequenceError", "DistanceError": "InvalidSequenceError", "RadiusError": "InvalidSequenceError",
+    "RydbergLevelError": "InvalidSequenceError",
 }
 
 
